@@ -28,3 +28,8 @@ def eager_reschedule_fn(runs):
 
     return fn
 
+
+def cpu_bound_provider():
+    """A module-level (picklable) provider, as run_in_process=True requires."""
+    return "from-the-process-pool"
+
